@@ -3,5 +3,6 @@
 set -e
 cd "$(dirname "$0")"
 export CARGO_NET_OFFLINE=true
+python3 tools/test_normalise.py
 python3 tools/gen_root.py
 ./check --setup
